@@ -80,7 +80,131 @@ def extract():
         problems.append("CallStack.default_maxdepth not found: %r" % e)
         t["defaultMaxdepth"] = 0
 
+    # serialize/serializer_6.py: selector class orders, tags, reader phases (C04)
+    try:
+        t.update(_serializer_tables(_parse("modelx/serialize/serializer_6.py")))
+    except Exception as e:
+        problems.append("serializer_6.py selector tables not found: %r" % e)
+        for k in ("encoderClasses", "decoderClasses", "parserClasses", "literalTypes", "unconditionalClasses",
+                  "instructionMethods", "atParseMethods"):
+            t.setdefault(k, [])
+        t.setdefault("encoderTags", [])
+        t.setdefault("decoderTags", [])
+        t.setdefault("readerPhases", [])
+
     return t, problems
+
+
+def _class_list(tree, clsname, attr):
+    cls = _class(tree, clsname)
+    for node in cls.body:
+        if isinstance(node, ast.Assign) and node.targets[0].id == attr:
+            return [getattr(e, "id", None) or ast.unparse(e) for e in node.value.elts]
+    raise ValueError("%s.%s" % (clsname, attr))
+
+
+def _serializer_tables(tree):
+    import re
+    t = {}
+    t["encoderClasses"] = _class_list(tree, "EncoderSelector", "classes")
+    t["decoderClasses"] = _class_list(tree, "DecoderSelector", "classes")
+    t["parserClasses"] = _class_list(tree, "ParserSelector", "classes")
+    t["literalTypes"] = _class_list(tree, "LiteralEncoder", "literal_types")
+
+    # classes whose `condition` is `return True`
+    uncond = []
+    for name in t["encoderClasses"] + t["decoderClasses"]:
+        m = _method(_class(tree, name), "condition")
+        if m is not None:
+            body = [b for b in m.body if not (isinstance(b, ast.Expr) and isinstance(b.value, ast.Constant))]
+            if (len(body) == 1 and isinstance(body[0], ast.Return)
+                    and isinstance(body[0].value, ast.Constant) and body[0].value.value is True):
+                uncond.append(name)
+    t["unconditionalClasses"] = uncond
+
+    # tag an encoder writes: first ("Tag" in a string constant of its encode(); "" = bare literal
+    enc_tags = []
+    for name in t["encoderClasses"]:
+        m = _method(_class(tree, name), "encode")
+        tags = []
+        for node in ast.walk(m):
+            if isinstance(node, ast.Constant) and isinstance(node.value, str):
+                mm = re.match(r'\(\"(\w+)\"', node.value)
+                if mm:
+                    tags.append(mm.group(1))
+        if len(set(tags)) > 1:
+            raise ValueError("encoder %s writes several tags %s" % (name, tags))
+        enc_tags.append((name, tags[0] if tags else ""))
+    t["encoderTags"] = enc_tags
+
+    # tag a decoder accepts: DECTYPE class attribute; "" = none
+    dec_tags = []
+    for name in t["decoderClasses"]:
+        tag = ""
+        for node in _class(tree, name).body:
+            if isinstance(node, ast.Assign) and node.targets[0].id == "DECTYPE":
+                tag = node.value.value
+        dec_tags.append((name, tag))
+    t["decoderTags"] = dec_tags
+
+    # phases of ModelReader._read_model_inner
+    phases = []
+    for node in ast.walk(_method(_class(tree, "ModelReader"), "_read_model_inner")):
+        if (isinstance(node, ast.Call) and isinstance(node.func, ast.Attribute)
+                and node.func.attr == "execute_selected_methods"):
+            phases.append((node.lineno, [e.value for e in node.args[0].elts]))
+    t["readerPhases"] = [p for _, p in sorted(phases)]
+    if not t["readerPhases"]:
+        raise ValueError("no execute_selected_methods call")
+
+    # names under which parsers file their instructions (Instruction.func.__name__)
+    methods, at_parse = [], []
+    for cls in [n for n in tree.body if isinstance(n, ast.ClassDef)]:
+        bases = [getattr(b, "id", "") for b in cls.bases]
+        is_parser = cls.name.endswith("Parser") or cls.name in ("ModelReader", "CellsInputDataMixin")
+        if not is_parser:
+            continue
+        found = []
+        consts = {}
+        for node in ast.walk(cls):
+            if isinstance(node, ast.Assign) and len(node.targets) == 1 and isinstance(node.targets[0], ast.Name) \
+                    and isinstance(node.value, ast.Constant) and isinstance(node.value.value, str):
+                consts.setdefault(node.targets[0].id, []).append(node.value.value)
+        for node in ast.walk(cls):
+            if not isinstance(node, ast.Call):
+                continue
+            f = node.func
+            if isinstance(f, ast.Attribute) and f.attr == "from_method" and getattr(f.value, "id", "") == "Instruction":
+                kw = {k.arg: k.value for k in node.keywords}
+                mv = kw.get("method")
+                if isinstance(mv, ast.Constant):
+                    if mv.value == "fset" and isinstance(kw.get("obj"), ast.Attribute):
+                        found.append(kw["obj"].attr)      # property setter: __name__ is the property's name
+                    else:
+                        found.append(mv.value)
+                elif isinstance(mv, ast.Name):
+                    found.extend(consts.get(mv.id, []))
+                elif isinstance(mv, ast.Attribute) and mv.attr == "METHOD":
+                    pass    # resolved through the subclasses' METHOD constants below
+                else:
+                    raise ValueError("unrecognised method= in %s" % cls.name)
+            elif getattr(f, "id", "") == "Instruction" and node.args and isinstance(node.args[0], ast.Attribute):
+                found.append(node.args[0].attr)
+        found.extend(consts.get("METHOD", []))
+        prio = [n for n in cls.body if isinstance(n, ast.Assign) and n.targets[0].id == "default_priority"]
+        if prio and ast.unparse(prio[0].value).endswith("AT_PARSE"):
+            at_parse.extend(found)
+        else:
+            methods.extend(found)
+    t["instructionMethods"] = sorted(set(methods))
+    t["atParseMethods"] = sorted(set(at_parse))
+    if not t["instructionMethods"]:
+        raise ValueError("no instruction found")
+    return t
+
+
+def _lean_pair_list(xs):
+    return "[" + ", ".join('("%s", "%s")' % (a, b) for a, b in xs) + "]"
 
 
 def render(t):
@@ -90,6 +214,26 @@ def render(t):
         "def pythonKeywords : List String := " + _lean_str_list(t["pythonKeywords"]),
         "def defaultMaxBackups : Nat := %d" % t["defaultMaxBackups"],
         "def defaultMaxdepth : Nat := %d" % t["defaultMaxdepth"],
+        "/-- serializer_6.py: EncoderSelector.classes, in selection order -/",
+        "def encoderClasses : List String := " + _lean_str_list(t["encoderClasses"]),
+        "/-- DecoderSelector.classes, in selection order -/",
+        "def decoderClasses : List String := " + _lean_str_list(t["decoderClasses"]),
+        "/-- ParserSelector.classes, in selection order -/",
+        "def parserClasses : List String := " + _lean_str_list(t["parserClasses"]),
+        "/-- LiteralEncoder.literal_types -/",
+        "def literalTypes : List String := " + _lean_str_list(t["literalTypes"]),
+        "/-- selector classes whose `condition` is `return True` -/",
+        "def unconditionalClasses : List String := " + _lean_str_list(t["unconditionalClasses"]),
+        "/-- (encoder class, tag it writes as first tuple element; \"\" = a bare literal) -/",
+        "def encoderTags : List (String × String) := " + _lean_pair_list(t["encoderTags"]),
+        "/-- (decoder class, DECTYPE it accepts; \"\" = none) -/",
+        "def decoderTags : List (String × String) := " + _lean_pair_list(t["decoderTags"]),
+        "/-- ModelReader._read_model_inner: the method names executed, phase by phase -/",
+        "def readerPhases : List (List String) := [" + ", ".join(_lean_str_list(p) for p in t["readerPhases"]) + "]",
+        "/-- names under which the parsers file deferred instructions -/",
+        "def instructionMethods : List String := " + _lean_str_list(t["instructionMethods"]),
+        "/-- instructions executed while parsing (PriorityID.AT_PARSE) -/",
+        "def atParseMethods : List String := " + _lean_str_list(t["atParseMethods"]),
         "end MxModel.Generated",
         "",
     ]
